@@ -86,7 +86,8 @@ pub fn pyth_price_value_to_decimal(
     // - If `exponent` is not positive, then the `decimals` is set to `-exponent`.
     // - Otherwise, we should use `value * 10^exponent` as `price` argument, and let `decimals` be `0`.
     let decimals: u8 = if exponent <= 0 {
-        (-exponent)
+        exponent
+            .unsigned_abs()
             .try_into()
             .map_err(|_| OracleError::InvalidPriceFeedPrice("exponent too small"))?
     } else {
